@@ -21,6 +21,9 @@ import (
 type histReplay struct {
 	Profile string         `json:"profile"`
 	Log     []sim.LogEntry `json:"log"`
+	// TwinLog: the calls the second instance received (C01 / C11 twin monitors); a replay runs both logs on
+	// fresh instances and compares them
+	TwinLog []sim.LogEntry `json:"twin_log,omitempty"`
 }
 
 type appCase struct {
@@ -44,7 +47,7 @@ func monitorsFor(prop string, seed uint64, idx *sim.TxIndex) []sim.Monitor {
 	case "C05":
 		return []sim.Monitor{mon.C05{}}
 	case "C06":
-		return []sim.Monitor{mon.C06{}}
+		return []sim.Monitor{&mon.C06{}}
 	case "C07":
 		return []sim.Monitor{mon.C07{}}
 	case "C08":
@@ -105,6 +108,11 @@ func runCase(c *Ctx, prop string, ac appCase, nontrivialKeys []string) {
 	idx.Reset()
 	w := sim.NewWorld(ac.Seed, ac.Prof, idx)
 	w.Env.Monitors = monitorsFor(prop, ac.Seed, idx)
+	for _, m := range w.Env.Monitors {
+		if tw, ok := m.(*mon.C01); ok {
+			tw.W = w
+		}
+	}
 	w.Env.Monitors = append(w.Env.Monitors, mon.NewStateStats())
 	var dg *mon.Digest
 	if prop == "C01" && ac.CrossProcess {
@@ -163,7 +171,13 @@ func foldEnv(c *Ctx, prop, caseID, profName string, e *sim.Env, nontrivialKeys [
 				break
 			}
 		}
-		c.Violation(v.Prop, v.Sig, v.Msg, caseID, histReplay{Profile: profName, Log: log})
+		hr := histReplay{Profile: profName, Log: log}
+		for _, m := range e.Monitors {
+			if tw, ok := m.(*mon.C01); ok && tw.T != nil && (strings.HasPrefix(v.Sig, "divergence/") || strings.HasPrefix(v.Sig, "traceless-rejections-matter/")) {
+				hr.TwinLog = tw.T.Log
+			}
+		}
+		c.Violation(v.Prop, v.Sig, v.Msg, caseID, hr)
 	}
 }
 
@@ -186,6 +200,21 @@ func replayHistory(prop string) func(c *Ctx, raw json.RawMessage) {
 		}
 		idx := getIdx()
 		idx.Reset()
+		if len(hr.TwinLog) > 0 {
+			// two fresh instances, one per recorded log; compared at the end
+			a := sim.NewEnv(idx)
+			a.Replay(dbm.NewMemDB(), hr.Log)
+			idx.Reset()
+			b := sim.NewEnv(idx)
+			b.Replay(dbm.NewMemDB(), hr.TwinLog)
+			c.Res.Cases++
+			if a.Dead != b.Dead {
+				c.Violation(prop, "divergence/replay/death", fmt.Sprintf("replayed instances: dead %v vs %v", a.Dead, b.Dead), "replay", hr)
+			} else if d := sim.DiffRaw(a.A.DumpRaw(), b.A.DumpRaw()); len(d) > 0 {
+				c.Violation(prop, "divergence/replay/state-content", fmt.Sprintf("replayed instances differ in %d keys, first %s", len(d), d[0].String()), "replay", hr)
+			}
+			return
+		}
 		e := sim.NewEnv(idx)
 		e.Monitors = monitorsFor(prop, c.Seed, idx)
 		if osGetenv("VCHECK_TRACE") != "" {
@@ -313,6 +342,13 @@ func profileFor(prop string, r *sim.Rand, i int, quick bool) sim.Profile {
 	case "C02", "C04":
 		p.AwardPct, p.BurnPct, p.EvidencePct = 45, 15, 6
 		p.W["stake"], p.W["unstake"], p.W["send"], p.W["dao"] = 20, 10, 20, 10
+		if prop == "C04" {
+			p.Whale = i%8 == 5
+		}
+		if i%8 == 7 {
+			p.MinStakeRaises = true
+			p.W["govparam"] = 14
+		}
 	case "C10":
 		p.AwardPct, p.UnknownPropPct = 60, 20
 		p.W["send"] = 25
@@ -323,6 +359,7 @@ func profileFor(prop string, r *sim.Rand, i int, quick bool) sim.Profile {
 		p.W["bytes"] = 1
 		p.MaxTx = 10
 		p.EvidencePct, p.BurnPct = 0, 0
+		p.SecondDenom = i%3 == 0
 	case "C05", "C06", "C09":
 		small = true
 		p = baseProfile(r, true)
@@ -335,6 +372,11 @@ func profileFor(prop string, r *sim.Rand, i int, quick bool) sim.Profile {
 		p.MissLevels = []int{0, 0, 20, 60, 100}
 		p.PhaseLen = 12
 		p.AimPct = 30
+		if i%8 == 7 || (prop == "C06" && i%8 == 5) {
+			p.MinStakeRaises = true
+			p.W["govparam"] = 14
+		}
+		p.Whale = prop == "C06" && i%8 == 6
 	case "C07":
 		p = baseProfile(r, true)
 		p.Blocks = 150
@@ -361,6 +403,13 @@ func profileFor(prop string, r *sim.Rand, i int, quick bool) sim.Profile {
 		p.W["bytes"] = 20
 		p.ReadsPct, p.HostilePct, p.ProbePct = 45, 40, 30
 		p.MaxTx = 8
+		p.W["upgrade"] = 6
+		p.SecondDenom = i%4 == 2
+		p.Whale = i%8 == 4
+		if i%4 == 3 {
+			p.MinStakeRaises = true
+			p.W["govparam"] = 14
+		}
 	case "C14":
 		p.QueryHeavy = true
 		p.ReadsPct = 70
